@@ -10,8 +10,16 @@
 
    Where the crate's result depends on an unspecified order (`select_nth_unstable` hands the
    k smallest entries to the re-insertion loop of `rebuild` in an implementation-defined
-   order) the model re-inserts in ascending order: the SET of entries is the same, the slot
-   layout after a rebuild is one valid layout, not necessarily the crate's. *)
+   order) the model takes that order as a parameter: [reorder old_entries lesser] is the order
+   in which the k smallest entries ([lesser], given in ascending order) are re-inserted, as a
+   function of the slot-order entry list the crate's selection started from.  The theorems
+   (Proofs/ThetaProofs.v) hold for EVERY [reorder] that returns a permutation of [lesser]; the
+   executable instance used by the correspondence check is [ascending] (re-insert in ascending
+   order: the SET of entries is the crate's, the slot layout after a rebuild is one valid
+   layout, not necessarily the crate's).
+
+   `is_empty` is the flag of the repaired code (/repo "fix: theta sketch whose updates were all
+   screened out by theta reported itself empty"): cleared by the first offered value. *)
 From DS Require Import Base.Prelude Base.FloatBits Base.ThetaLib.
 From DS Require Gen.GenTheta Gen.GenCodec.
 From Coq Require Import Floats.
@@ -55,12 +63,13 @@ Record tsk := mkSk {
   t_lg_cur : N;        (* lg_cur_size; entries.len() = 2^lg_cur_size *)
   t_theta : N;
   t_slots : slots;     (* entries *)
-  t_n : N              (* num_entries *)
+  t_n : N;             (* num_entries *)
+  t_empty : bool       (* is_empty *)
 }.
 
 (* ThetaHashTable::new *)
 Definition sk_new (c : tcfg) : tsk :=
-  mkSk c (init_lg_cur c) (starting_theta (c_pbits c)) sl_empty 0.
+  mkSk c (init_lg_cur c) (starting_theta (c_pbits c)) sl_empty 0 true.
 
 (* ThetaSketchBuilder::{lg_k, sampling_probability, build}: the two asserts *)
 Definition sk_build (c : tcfg) : outcome tsk :=
@@ -120,7 +129,14 @@ Definition sk_entries (s : tsk) : list N := sl_values (t_slots s) (2 ^ t_lg_cur 
 Definition resize (s : tsk) : outcome tsk :=
   let new_lg := N.min (t_lg_cur s + c_rf (t_cfg s)) (lg_max (t_cfg s)) in
   obind (insert_all sl_empty new_lg (sk_entries s)) (fun sl =>
-  Ok (mkSk (t_cfg s) new_lg (t_theta s) sl (t_n s))).
+  Ok (mkSk (t_cfg s) new_lg (t_theta s) sl (t_n s) (t_empty s))).
+
+(* the order in which `select_nth_unstable` leaves the k smallest entries *)
+Definition reorder_t := list N -> list N -> list N.
+Definition ascending : reorder_t := fun _ lesser => lesser.
+
+Section Reorder.
+Variable reorder : reorder_t.
 
 (* rebuild: retain non-zero; select_nth_unstable(k) (panics when k >= len); theta = k-th
    (0-based) order statistic; re-insert the k lesser entries; assert num_inserted == k *)
@@ -131,11 +147,11 @@ Definition rebuild (s : tsk) : outcome tsk :=
   else
     let sorted := sortN es in
     let kth := nth (N.to_nat k) sorted 0 in
-    let lesser := firstn (N.to_nat k) sorted in
+    let lesser := reorder es (firstn (N.to_nat k) sorted) in
     obind (insert_all sl_empty (t_lg_cur s) lesser) (fun sl =>
     let num_inserted := N.of_nat (length lesser) in
     if negb (num_inserted =? k) then Stuck
-    else Ok (mkSk (t_cfg s) (t_lg_cur s) kth sl num_inserted)).
+    else Ok (mkSk (t_cfg s) (t_lg_cur s) kth sl num_inserted (t_empty s))).
 
 (* try_insert: returns the table and whether the hash was new *)
 Definition try_insert (s : tsk) (hash : N) : outcome (tsk * bool) :=
@@ -147,7 +163,7 @@ Definition try_insert (s : tsk) (hash : N) : outcome (tsk * bool) :=
         if sl_get (t_slots s) index =? hash then Ok (s, false)
         else if negb (sl_get (t_slots s) index =? 0) then Stuck   (* assert_eq!(entries[index], 0) *)
         else
-          let s1 := mkSk (t_cfg s) (t_lg_cur s) (t_theta s) (sl_set (t_slots s) index hash) (t_n s + 1) in
+          let s1 := mkSk (t_cfg s) (t_lg_cur s) (t_theta s) (sl_set (t_slots s) index hash) (t_n s + 1) false in
           let capacity := get_capacity (t_lg_cur s1) (c_lg_nom (t_cfg s1)) in
           if capacity <? t_n s1 then
             obind (if t_lg_cur s1 <=? c_lg_nom (t_cfg s1) then resize s1 else rebuild s1) (fun s2 => Ok (s2, true))
@@ -160,19 +176,26 @@ Definition sk_trim (s : tsk) : outcome tsk :=
 
 (* reset *)
 Definition sk_reset (s : tsk) : tsk :=
-  mkSk (t_cfg s) (init_lg_cur (t_cfg s)) (starting_theta (c_pbits (t_cfg s))) sl_empty 0.
+  mkSk (t_cfg s) (init_lg_cur (t_cfg s)) (starting_theta (c_pbits (t_cfg s))) sl_empty 0 true.
 
 (* ---------- ThetaSketch ---------- *)
 (* hash_and_screen after hashing: `let hash = h1 >> 1; if hash >= theta { 0 } else { hash }` *)
 Definition hash_of_h1 (h1 : N) : N := N.shiftr h1 (lit GenTheta.LIT_hash_and_screen 0).
 Definition screen (s : tsk) (hash : N) : N := if t_theta s <=? hash then 0 else hash.
 
+(* hash_and_screen's first statement: `self.is_empty = false` *)
+Definition mark_offered (s : tsk) : tsk :=
+  mkSk (t_cfg s) (t_lg_cur s) (t_theta s) (t_slots s) (t_n s) false.
+
 (* update, from the 63-bit hash on *)
 Definition sk_update (s : tsk) (hash : N) : outcome tsk :=
+  let s := mark_offered s in
   let h := screen s hash in
   if h =? 0 then Ok s else obind (try_insert s h) (fun r => Ok (fst r)).
 
-Definition sk_is_empty (s : tsk) : bool := t_n s =? 0.
+End Reorder.
+
+Definition sk_is_empty (s : tsk) : bool := t_empty s.
 Definition sk_is_estimation_mode (s : tsk) : bool := t_theta s <? MAX_THETA.
 Definition sk_num_retained (s : tsk) : N := t_n s.
 
@@ -196,7 +219,7 @@ Record csk := mkC {
 (* ThetaSketch::compact(ordered) *)
 Definition sk_compact (s : tsk) (ordered : bool) : csk :=
   let entries := sk_entries s in
-  let empty := match entries with [] => true | _ => false end in
+  let empty := sk_is_empty s in
   let theta := if empty then MAX_THETA else t_theta s in
   let is_single := (N.of_nat (length entries) =? 1) && (theta =? MAX_THETA) in
   let ordered := ordered || empty || is_single in
